@@ -847,6 +847,17 @@ func (g *generator) renderPkg(m *Module, p *gpkg, decls []*gpkg) {
 		} else {
 			add("func (" + recv2 + " *" + t.name + ") Dec() {\n" + indent([]string{"*" + recv2 + "-- " + g.nextTag(), "*" + recv2 + " = 6 " + g.nextTag(), "*" + recv2 + " += 1 " + g.nextTag()}) + "}")
 		}
+		// variables that shadow the receiver's name (a literal's parameter, a local of an inner block) are not the receiver
+		if t.kind == 0 {
+			add("func (" + recv + " *" + t.name + ") Shadow(q *Free) {\n" + indent([]string{
+				"f := func(" + recv + " *Free) {", "\t*" + recv + " = Free{} " + g.nextTag(), "\t" + recv + ".X = 1 " + g.nextTag(), "}", "f(q)",
+				"{", "\t" + recv + " := &Free{}", "\t*" + recv + " = Free{} " + g.nextTag(), "}",
+				"*" + recv + " = " + t.name + "{} " + g.nextTag(), recv + ".X = 3 " + g.nextTag()}) + "}")
+		} else {
+			add("func (" + recv + " *" + t.name + ") Shadow(q *int) {\n" + indent([]string{
+				"func(" + recv + " *int) {", "\t*" + recv + "++ " + g.nextTag(), "\t*" + recv + " = 2 " + g.nextTag(), "}(q)",
+				"*" + recv + "++ " + g.nextTag()}) + "}")
+		}
 		if t.kind == 0 {
 			add("type recvAlias" + t.name + " = " + t.name)
 			add("func (" + recv + " *recvAlias" + t.name + ") ViaAliasRecv() {\n" + indent([]string{"*" + recv + " = " + t.name + "{} " + g.nextTag(), recv + ".X = 2 " + g.nextTag()}) + "}")
